@@ -525,7 +525,7 @@ macro_rules! trace_mod {
         let universe: u32 = if churn { 400 } else if big { 200 } else if t % 3 == 0 { 40 } else { 6 };
         let max0: usize = if churn { if rng.below(3) == 0 { e0 * 120 } else { usize::MAX } } else if big { match rng.below(3) { 0 => usize::MAX, 1 => e0 * 150, _ => e0 * 40 + 13 } } else {
             match rng.below(8) { 0 => 0, 1 => e0 * 3, 2 => e0 * 4 + 37, 3 | 4 => usize::MAX, _ => e0 * (1 + rng.below(8) as usize) + rng.below(50) as usize } };
-        let cap0 = if churn { rng.pick(&[28usize, 56, 100, 14, 112]) } else { rng.pick(&[0usize, 0, 1, 3, 7, 28, 100]) };
+        let cap0 = if churn { rng.pick(&[28usize, 56, 100, 14, 112]) } else { rng.pick(&[0usize, 0, 1, 3, 4, 7, 8, 15, 28, 29, 57, 100]) };
         let mut w = World { slots: vec![None, None, None], universe, cfg: (max0, cap0, hk), log: Vec::new() };
         new_cache(&mut w, 0, max0, cap0, hk, out);
         let mut tok: u64 = t * 1_000_000;
